@@ -27,20 +27,24 @@ var (
 
 // initPorts claims a block of ports that no other harness process on this machine uses at the same time (exclusive
 // advisory lock on a file per block, held for the life of the process): checks that run concurrently - several
-// shards, a background thorough run, a scratch-tree run - can then never dial or rebind each other's ports.
-func initPorts() {
-	const blockSize = 250
-	const blocks = 48 // 20000..31999
-	dir := os.Getenv("VERIF_DIR")
-	if dir == "" {
-		dir = os.TempDir()
-	}
-	dir = dir + "/work/portlocks"
-	_ = os.MkdirAll(dir, 0o755)
-	start := os.Getpid() % blocks
-	for i := 0; i < blocks; i++ {
-		b := (start + i) % blocks
-		f, err := os.OpenFile(fmt.Sprintf("%s/block-%02d.lock", dir, b), os.O_CREATE|os.O_RDWR, 0o644)
+// shards, a background thorough run from a snapshot of /verif, a scratch-tree run - can then never dial or rebind each
+// other's ports. The lock files live in one machine-wide directory (created on demand) so that copies of /verif share them.
+const (
+	portBlockSize = 250
+	portBlocks    = 48 // 20000..31999
+)
+
+var portBlock = -1
+
+func claimBlock(start int) bool {
+	dir := os.TempDir() + "/verif-portlocks"
+	_ = os.MkdirAll(dir, 0o777)
+	for i := 0; i < portBlocks; i++ {
+		b := (start + i) % portBlocks
+		if b == portBlock {
+			continue
+		}
+		f, err := os.OpenFile(fmt.Sprintf("%s/block-%02d.lock", dir, b), os.O_CREATE|os.O_RDWR, 0o666)
 		if err != nil {
 			continue
 		}
@@ -48,45 +52,63 @@ func initPorts() {
 			f.Close()
 			continue
 		}
+		if portLockFile != nil {
+			portLockFile.Close() // gives the previous block back
+		}
 		portLockFile = f // keep it open: the lock lives as long as the process
-		portLo = 20000 + b*blockSize
-		portHi = portLo + blockSize
+		portBlock = b
+		portLo = 20000 + b*portBlockSize
+		portHi = portLo + portBlockSize
 		portNext = portLo
+		return true
+	}
+	return false
+}
+
+func initPorts() {
+	if claimBlock(os.Getpid() % portBlocks) {
 		return
 	}
 	// every block is taken: fall back to a pid-derived block (bind tests still apply)
-	portLo = 20000 + (os.Getpid()%blocks)*blockSize
-	portHi = portLo + blockSize
+	portLo = 20000 + (os.Getpid()%portBlocks)*portBlockSize
+	portHi = portLo + portBlockSize
 	portNext = portLo
 }
 
 var portLockFile *os.File
 
-// Port returns a loop-back port on which both TCP and UDP could be bound a moment ago.
+// Port returns a loop-back port on which both TCP and UDP could be bound a moment ago. When a whole block has no
+// bindable port left (code under test that does not release its sockets can use a block up) the next free block is
+// claimed.
 func Port() int {
 	portMu.Lock()
 	defer portMu.Unlock()
 	if portLo == 0 {
 		initPorts()
 	}
-	for tries := 0; tries < 3000; tries++ {
-		p := portNext
-		portNext++
-		if portNext >= portHi {
-			portNext = portLo
-		}
-		l, err := net.Listen("tcp", fmt.Sprintf("127.0.0.1:%d", p))
-		if err != nil {
-			continue
-		}
-		u, err := net.ListenPacket("udp", fmt.Sprintf("127.0.0.1:%d", p))
-		if err != nil {
+	for switches := 0; switches <= portBlocks; switches++ {
+		for tries := 0; tries < portBlockSize; tries++ {
+			p := portNext
+			portNext++
+			if portNext >= portHi {
+				portNext = portLo
+			}
+			l, err := net.Listen("tcp", fmt.Sprintf("127.0.0.1:%d", p))
+			if err != nil {
+				continue
+			}
+			u, err := net.ListenPacket("udp", fmt.Sprintf("127.0.0.1:%d", p))
+			if err != nil {
+				l.Close()
+				continue
+			}
 			l.Close()
-			continue
+			u.Close()
+			return p
 		}
-		l.Close()
-		u.Close()
-		return p
+		if !claimBlock((portBlock + 1) % portBlocks) {
+			break
+		}
 	}
 	panic("vlib: no free port in harness range")
 }
